@@ -13,11 +13,19 @@ try:
         print("PATTERN NOT FOUND"); sys.exit(9)
     s = s.replace(old, new, 1)
     open(p, "w").write(s)
-    env = dict(os.environ, PYVC_REPO=tmp)
+    env = dict(os.environ, PYVC_REPO=tmp, PYVC_EVIDENCE_DIR=os.path.join(tmp, "evidence"))
     r = subprocess.run(["./check", prop] + rest, cwd="/verif", env=env, capture_output=True, text=True)
     lines = r.stdout.strip().splitlines()
-    for l in lines[-8:]:
-        print(l[:300])
+    fails = [l.strip()[len("failed obligation: "):] for l in lines if l.strip().startswith("failed obligation")]
+    print("failed obligations: %d" % len(fails))
+    for l in fails[:6]:
+        print("   ", l[:200])
+    viol = [l for l in lines if l.startswith("VIOLATION")]
+    print("violations: %d (reproduced natively: %d)" % (len(viol), sum(1 for l in viol if "no-failing-input-found" not in l)))
+    for l in lines:
+        if l.startswith(("ENGINE-ERROR", "UNDECIDED", "KNOWN")):
+            print(l[:200])
+    print(lines[-1][:300] if lines else "")
     print("exit", r.returncode)
 finally:
     shutil.rmtree(tmp, ignore_errors=True)
